@@ -90,7 +90,7 @@ func OracleC17(w *W2Run) []Violation {
 					}
 					continue
 				}
-				if h, ok := heldAt[e.A]; ok && e.Seq > h && e.Kind >= EvS && e.Kind <= EvObj {
+				if h, ok := heldAt[e.A]; ok && e.Seq > h && IsRuleEvent(e.Kind) {
 					if e.Seq < rel {
 						rel = e.Seq
 					}
